@@ -3,10 +3,12 @@
   `updateProofRemove`, `updateProofAdd`, `Proof.Update`, `pruneEdges`, `proofUndoAdd`, `proofUndoDel`,
   `Proof.Undo` — transliterated (properties C07 / C08).
 
-  This is a model of the code AS IT IS, including the two recorded defects of `Proof.Undo`
-  (known findings `C08.undo.emptyRootsOverwritten`, `C08.undo.toEmpty`): the driver replays
-  every `Proof.Update` / `Proof.Undo` call of the C07/C08 families on it and compares the
-  outputs token for token.
+  This is a model of the code AS IT IS: the driver replays every `Proof.Update` / `Proof.Undo`
+  call of the C07/C08 families on it and compares the outputs token for token.
+  `pruneEdges` / `proofUndoAdd` / `proofUndo` model the REPAIRED `Proof.undoAdd` (fix of the known
+  findings `C08.undo.emptyRootsOverwritten`, `C08.undo.toEmpty`); the code before the repair,
+  including the two defects, is kept as `pruneEdgesOld` / `proofUndoAddOld` / `proofUndoOld`
+  (the witness theorems `C08_fails_*` of `Props/C08.lean` are about it).
 
   Conventions as in `Model/HashAndPos.lean`: a `hashAndPos` is a list of (position, hash)
   pairs; `toHashAndPos` is `.panic` on slices of different lengths (outside the domain of the
@@ -17,6 +19,7 @@
   around separately, exactly as in Go (`*Proof` receiver + `cachedHashes` argument/result).
 -/
 import UtreexoVerif.Model.ProofOps
+import UtreexoVerif.Model.Schedule
 
 namespace UtreexoVerif.Model
 open UtreexoVerif Hasher
@@ -197,7 +200,25 @@ def proofUpdate (p : CProof H) (cachedHashes addHashes : List H) (blockTargets :
   let (p, cachedHashes) ← updateProofRemove p blockTargets cachedHashes ud.newDel ud.prevNumLeaves
   updateProofAdd p addHashes cachedHashes remembers ud.newAdd ud.prevNumLeaves ud.toDestroy
 
-/-- `pruneEdges(hnp, numAdds, numLeaves, forestRows, prevForestRows)` -/
+/-- `pruneEdges(hnp, numAdds, numLeaves, forestRows, prevForestRows)` BEFORE the repair of
+`Proof.undoAdd` (position 0 is taken to exist in a forest of 0 leaves) -/
+def pruneEdgesOld (numAdds numLeaves : U64) (forestRows prevForestRows : U8) : HP H → HP H → Out (HP H)
+  | [], acc => .ok acc
+  | (target, h) :: rest, acc =>
+    let row := DetectRow target forestRows
+    if row > prevForestRows then pruneEdgesOld numAdds numLeaves forestRows prevForestRows rest acc
+    else
+      let currentStartPos := startPositionAtRow row forestRows
+      let prevStartPos := startPositionAtRow row prevForestRows
+      let offset := target - currentStartPos
+      let (maxPos, err) := maxPositionAtRow row prevForestRows (numLeaves - numAdds)
+      if err then .err
+      else if prevStartPos + offset ≤ maxPos then
+        pruneEdgesOld numAdds numLeaves forestRows prevForestRows rest (acc ++ [(target, h)])
+      else pruneEdgesOld numAdds numLeaves forestRows prevForestRows rest acc
+
+/-- `pruneEdges(hnp, numAdds, numLeaves, forestRows, prevForestRows)` (repaired: nothing exists in
+an empty previous forest) -/
 def pruneEdges (numAdds numLeaves : U64) (forestRows prevForestRows : U8) : HP H → HP H → Out (HP H)
   | [], acc => .ok acc
   | (target, h) :: rest, acc =>
@@ -209,7 +230,7 @@ def pruneEdges (numAdds numLeaves : U64) (forestRows prevForestRows : U8) : HP H
       let offset := target - currentStartPos
       let (maxPos, err) := maxPositionAtRow row prevForestRows (numLeaves - numAdds)
       if err then .err
-      else if prevStartPos + offset ≤ maxPos then
+      else if numLeaves != numAdds && decide (prevStartPos + offset ≤ maxPos) then
         pruneEdges numAdds numLeaves forestRows prevForestRows rest (acc ++ [(target, h)])
       else pruneEdges numAdds numLeaves forestRows prevForestRows rest acc
 
@@ -222,8 +243,9 @@ def deleteSkipping {α} (cond : α → Bool) : Nat → Nat → List α → List 
     | none => l
     | some x => if cond x then deleteSkipping cond fuel (i+1) (l.eraseIdx i) else deleteSkipping cond fuel (i+1) l
 
-/-- `(p *Proof) proofUndoAdd(numAdds, numLeaves, cachedHashes, toDestroy)` -/
-def proofUndoAdd (p : CProof H) (numAdds numLeaves : U64) (cachedHashes : List H) (toDestroy : List U64) :
+/-- `(p *Proof) undoAdd(numAdds, numLeaves, cachedHashes, toDestroy)` BEFORE the repair (with the
+two recorded defects `C08.undo.emptyRootsOverwritten`, `C08.undo.toEmpty`) -/
+def proofUndoAddOld (p : CProof H) (numAdds numLeaves : U64) (cachedHashes : List H) (toDestroy : List U64) :
     Out (CProof H × List H) := do
   let targetsWithHash ← toHashAndPos p.targets cachedHashes
   let proofPos := (ProofPositions targetsWithHash.positions numLeaves (TreeRows numLeaves)).1
@@ -242,8 +264,8 @@ def proofUndoAdd (p : CProof H) (numAdds numLeaves : U64) (cachedHashes : List H
       else (target, h))
   let (targetsWithHash, proofWithPos) := toDestroy.foldl (fun (st : HP H × HP H) destroyed =>
       (moveBack destroyed st.1, moveBack destroyed st.2)) (targetsWithHash, proofWithPos)
-  let targetsWithHash ← pruneEdges numAdds numLeaves forestRows prevForestRows targetsWithHash []
-  let proofWithPos ← pruneEdges numAdds numLeaves forestRows prevForestRows proofWithPos []
+  let targetsWithHash ← pruneEdgesOld numAdds numLeaves forestRows prevForestRows targetsWithHash []
+  let proofWithPos ← pruneEdgesOld numAdds numLeaves forestRows prevForestRows proofWithPos []
   -- prune everything under a previously empty root: (prevForestRows+1) passes
   let under (destroyed : U64) (x : U64 × H) : Bool :=
     (DetectOffset destroyed numLeaves).1 == (DetectOffset x.1 numLeaves).1 || x.1 == destroyed
@@ -265,6 +287,42 @@ def proofUndoAdd (p : CProof H) (numAdds numLeaves : U64) (cachedHashes : List H
     else hnp
   let targetsWithHash := remap targetsWithHash
   let proofWithPos := remap proofWithPos
+  let neededProofPos := (ProofPositions targetsWithHash.positions (numLeaves - numAdds) prevForestRows).1
+  let proofWithPos := subsetHP proofWithPos neededProofPos
+  pure ({ targets := targetsWithHash.positions, proof := proofWithPos.hashes }, targetsWithHash.hashes)
+
+/-- `(p *Proof) undoAdd(numAdds, numLeaves, cachedHashes, toDestroy)` (repaired) -/
+def proofUndoAdd (p : CProof H) (numAdds numLeaves : U64) (cachedHashes : List H) (toDestroy : List U64) :
+    Out (CProof H × List H) := do
+  let targetsWithHash ← toHashAndPos p.targets cachedHashes
+  let proofPos := (ProofPositions targetsWithHash.positions numLeaves (TreeRows numLeaves)).1
+  let proofWithPos ← toHashAndPos proofPos p.proof
+  let forestRows := TreeRows numLeaves
+  let prevForestRows := TreeRows (numLeaves - numAdds)
+  -- `for i := len(toDestroy) - 1; i >= 0; i--`: put the destroyed empty roots back, last destroyed
+  -- first (`moveDownPositions` on both position slices)
+  let moveDown (destroyed : U64) (hnp : HP H) : HP H :=
+    let parent := Parent destroyed forestRows
+    hnp.map (fun (x : U64 × H) => (moveDownPosition forestRows parent destroyed x.1, x.2))
+  let (targetsWithHash, proofWithPos) := toDestroy.reverse.foldl (fun (st : HP H × HP H) destroyed =>
+      (moveDown destroyed st.1, moveDown destroyed st.2)) (targetsWithHash, proofWithPos)
+  let targetsWithHash ← pruneEdges numAdds numLeaves forestRows prevForestRows targetsWithHash []
+  let proofWithPos ← pruneEdges numAdds numLeaves forestRows prevForestRows proofWithPos []
+  -- remap to the previous number of rows
+  let remap (hnp : HP H) : HP H :=
+    if prevForestRows < forestRows then
+      hnp.map (fun (pos, h) =>
+        let row := DetectRow pos (TreeRows numLeaves)
+        let currentStartPos := startPositionAtRow row forestRows
+        let prevStartPos := startPositionAtRow row prevForestRows
+        let offset := pos - currentStartPos
+        (offset + prevStartPos, h))
+    else hnp
+  let targetsWithHash := remap targetsWithHash
+  let proofWithPos := remap proofWithPos
+  -- moving the positions down may have put them out of order
+  let targetsWithHash := sortHP targetsWithHash
+  let proofWithPos := sortHP proofWithPos
   let neededProofPos := (ProofPositions targetsWithHash.positions (numLeaves - numAdds) prevForestRows).1
   let proofWithPos := subsetHP proofWithPos neededProofPos
   pure ({ targets := targetsWithHash.positions, proof := proofWithPos.hashes }, targetsWithHash.hashes)
@@ -368,6 +426,13 @@ def proofUndo (p : CProof H) (numAdds numLeaves : U64) (dels : List U64) (delHas
     (toDestroy : List U64) (blockProofTargets : List U64) (blockProofHashes : List H) :
     Out (CProof H × List H) := do
   let (p, cachedHashes) ← proofUndoAdd p numAdds numLeaves cachedHashes toDestroy
+  proofUndoDel p dels delHashes cachedHashes blockProofTargets blockProofHashes (numLeaves - numAdds)
+
+/-- BEFORE the repair of `Proof.undoAdd`:  `(p *Proof) Undo(numAdds, numLeaves, dels, delHashes, cachedHashes, toDestroy, proof)` -/
+def proofUndoOld (p : CProof H) (numAdds numLeaves : U64) (dels : List U64) (delHashes cachedHashes : List H)
+    (toDestroy : List U64) (blockProofTargets : List U64) (blockProofHashes : List H) :
+    Out (CProof H × List H) := do
+  let (p, cachedHashes) ← proofUndoAddOld p numAdds numLeaves cachedHashes toDestroy
   proofUndoDel p dels delHashes cachedHashes blockProofTargets blockProofHashes (numLeaves - numAdds)
 
 end
